@@ -3460,8 +3460,9 @@ AUTHOR
 static int
 HMCPendaccess(accrec_t *access_rec /* IN:  access record to close */)
 {
-    filerec_t *file_rec  = NULL; /* file record */
-    int        ret_value = SUCCEED;
+    filerec_t *file_rec     = NULL;  /* file record */
+    int        close_failed = FALSE; /* flushing/closing the chunk information failed */
+    int        ret_value    = SUCCEED;
 
     /* validate argument */
     if (access_rec == NULL)
@@ -3473,9 +3474,13 @@ HMCPendaccess(accrec_t *access_rec /* IN:  access record to close */)
         HGOTO_ERROR(DFE_ARGS, FAIL);
 
     /* detach the special information record.
-       If no more references to that, free the record */
+       If no more references to that, free the record.
+       The access record is released below whether or not this succeeds (e.g. a
+       chunk could not be written because no ref is left for it), so the
+       descriptor and the file are detached in either case: otherwise the file
+       could never be closed again. */
     if (HMCPcloseAID(access_rec) == FAIL)
-        HGOTO_ERROR(DFE_CANTCLOSE, FAIL);
+        close_failed = TRUE;
 
     /* update file and access records */
     if (HTPendaccess(access_rec->ddid) == FAIL)
@@ -3486,6 +3491,10 @@ HMCPendaccess(accrec_t *access_rec /* IN:  access record to close */)
 
     /* free the access record */
     HIrelease_accrec_node(access_rec);
+    access_rec = NULL;
+
+    if (close_failed)
+        HGOTO_ERROR(DFE_CANTCLOSE, FAIL);
 
 done:
     if (ret_value == FAIL) { /* Error condition cleanup */
